@@ -70,8 +70,9 @@ inductive Level | avx2 | sse2 | scalar
 /-- `parse_simd_clamp`: `match value.trim().to_ascii_lowercase().as_str()`. -/
 def parseSimdClamp (value : List Char) : Option Bool :=
   let v := normalise value
-  if v = "scalar".toList ∨ v = "sse2".toList ∨ v = "sse42".toList ∨ v = "sse4.2".toList then some true
-  else if v = "avx2".toList ∨ v = [] then some false
+  if v = ['s','c','a','l','a','r'] ∨ v = ['s','s','e','2'] ∨ v = ['s','s','e','4','2'] ∨
+      v = ['s','s','e','4','.','2'] then some true
+  else if v = ['a','v','x','2'] ∨ v = [] then some false
   else none
 
 /-- `clamp_below_avx2`: `env::var("SUCCINCTLY_SIMD").is_ok_and(|v| parse_simd_clamp(&v) == Some(true))`. -/
@@ -279,19 +280,6 @@ def parseAnchorName (lvl : Level) (buf : List Byte) (start : Nat) : Nat :=
   | _ => parseAnchorNameScalar buf start
 
 /-! ### `classify_yaml_chars` -/
-
-structure CharClass where
-  newlines : Nat
-  carriageReturns : Nat
-  colons : Nat
-  hyphens : Nat
-  spaces : Nat
-  quotesDouble : Nat
-  quotesSingle : Nat
-  backslashes : Nat
-  hash : Nat
-  width : Nat
-  deriving DecidableEq, Repr
 
 /-- `classify_yaml_chars_{avx2,sse2}::<HAS_CR>` on the `W`-byte chunk at `offset`. -/
 def classifyChunk (W : Nat) (hasCr : Bool) (buf : List Byte) (offset : Nat) : CharClass :=
